@@ -20,7 +20,7 @@ import os
 
 import numpy as np
 
-from .. import gen_core, gen_ioapi, harness, ops, snapshot
+from .. import gen_core, gen_ioapi, harness, ops, readerfiles, snapshot
 from ..cli import digest
 
 PROP = 'C05'
@@ -44,6 +44,7 @@ RULE = ('suite: the repository\'s own test suite with receiver and '
         're-read; distinct = digests of (operation, input digest) resp. of '
         'the schedule.')
 RULE += (' Queries also run on receivers written to disk and reopened (a file that cannot be read after the query is a violation); interpSigma also with a model top of its own; programs on IOAPI files whose TFLAG was supplied by the caller.')
+RULE += (" Every eighth program and every fifth query starts from the object one of the library's READERS returns for a valid image written by the independent codecs (all CAMx memory-mapped and record readers, bpch1, bpch2, arlpackedbit, ffi1001); the gridded, boundary, land-use and bpch1 memory maps are opened for update (mode='r+') in half of those programs, so that anything sharing the map could change the receiver.")
 ASSUMPTIONS = [
     'getVarlist() with its default update=True is a documented mutator and '
     'is not treated as a query',
@@ -122,7 +123,12 @@ def gen(rng, idx, tier, seed):
     if idx == ncases(tier) - 1:
         return {'mode': 'suite'}
     if idx < NPROG[tier]:
-        if idx % 4 == 3:
+        if idx % 8 == 6:
+            # the receiver is what a library reader returns for a valid
+            # image (memory maps, lazily built variables, tables)
+            fs = {'reader': readerfiles.gen_spec(rng, idx=idx // 8,
+                                                 update_mode=True)}
+        elif idx % 4 == 3:
             fs = {'ioapi': gen_ioapi.gen_spec(rng)}
         else:
             fs = {'core': gen_core.gen_filespec(rng, bounds_prob=0.3)}
@@ -132,6 +138,11 @@ def gen(rng, idx, tier, seed):
                 'fn': bool(idx % 3 == 0 and 'core' in fs),
                 'disk': bool(idx % 5 == 1)}
     idx -= NPROG[tier]
+    if idx < NQUERY[tier] and idx % 5 == 4:
+        # queries on the object a library reader returns
+        return {'mode': 'query', 'kind': 'reader',
+                'qseed': int(rng.integers(1 << 30)),
+                'reader': readerfiles.gen_spec(rng, idx=idx // 5)}
     if idx < NQUERY[tier]:
         kind = ['cf', 'cf', 'ioapi', 'griddesc0', 'cf', 'ioapi635'][idx % 6]
         spec = {'mode': 'query', 'kind': kind,
@@ -247,11 +258,21 @@ def run_program(spec, res):
 
 
 def run_program_in(spec, res, d, h):
-    if 'ioapi' in spec['file']:
+    rdr = spec['file'].get('reader')
+    if rdr:
+        f, status = readerfiles.open_reader(rdr, d)
+        res.facet('reader:%s:%s' % (rdr['kind'], status.split(':')[0]))
+        if f is None:
+            res.note('reader-gave-no-file:' + status)
+            return
+        res.facet('source:reader')
+        if rdr.get('open_mode'):
+            res.facet('source:reader-update-mode')
+    elif 'ioapi' in spec['file']:
         f = gen_ioapi.build(spec['file']['ioapi'])
     else:
         f = gen_core.build(spec['file']['core'])
-    if spec.get('disk'):
+    if spec.get('disk') and not rdr:
         # the receiver is a file on disk (saved, opened again)
         g = harness.to_disk(f, d, h, fmt='ioapi' if 'ioapi' in spec['file']
                             else 'netcdf')
@@ -360,7 +381,12 @@ def queries_for(f, spec, rng):
     q.append(('repr', lambda: repr(f)))
     q.append(('str(vars)', lambda: [str(f.variables[k])
                                     for k in f.variables.keys()]))
-    q.append(('dump', lambda: f.dump(outfile=io.StringIO(), header=False)))
+    def dump():
+        # (groups of a bpch file are dumped to stdout whatever outfile says)
+        import contextlib
+        with contextlib.redirect_stdout(io.StringIO()):
+            f.dump(outfile=io.StringIO(), header=False)
+    q.append(('dump', dump))
     q.append(('getCoords', lambda: f.getCoords()))
     q.append(('getncatts', lambda: f.getncatts()))
     q.append(('ncattrs', lambda: [getattr(f, k) for k in f.ncattrs()]))
@@ -374,11 +400,16 @@ def queries_for(f, spec, rng):
         return go
     q.append(('save:NETCDF4_CLASSIC', save('NETCDF4_CLASSIC')))
     q.append(('save:NETCDF3_CLASSIC', save('NETCDF3_CLASSIC')))
-    if spec['kind'] == 'cf':
+    if spec['kind'] == 'cf' or (spec['kind'] == 'reader' and
+                                not ops.is_ioapi(f)):
         for dk in f.dimensions.keys():
             if dk in f.variables and f.variables[dk].dimensions == (dk,) \
-                    and len(f.dimensions[dk]) >= 2:
+                    and len(f.dimensions[dk]) >= 2 and \
+                    np.dtype(f.variables[dk].dtype).kind in 'fiu':
                 cv = np.asarray(f.variables[dk][...], 'f8')
+                if spec['kind'] == 'reader' and not (
+                        (np.diff(cv) > 0).all() or (np.diff(cv) < 0).all()):
+                    continue
                 vals = np.concatenate([cv, cv[:-1] + np.diff(cv) / 3.,
                                        [cv.min() - 1, cv.max() + 1]])
                 for m in ('nearest', 'bounds', 'exact'):
@@ -386,7 +417,7 @@ def queries_for(f, spec, rng):
                         lambda dk=dk, vals=vals, m=m:
                         f.val2idx(dk, vals.copy(), method=m,
                                   bounds='ignore'))))
-        if len(f.dimensions['time']) >= 1:
+        if 'time' in f.dimensions and len(f.dimensions['time']) >= 1:
             def t2i():
                 t = f.getTimes()
                 return f.time2idx(t)
@@ -409,7 +440,16 @@ def run_query(spec, res):
 
 
 def run_query_in(spec, res, d, h):
-    f = build_query_file(spec)
+    if spec['kind'] == 'reader':
+        f, status = readerfiles.open_reader(spec['reader'], d)
+        res.facet('query-reader:%s:%s' % (spec['reader']['kind'],
+                                          status.split(':')[0]))
+        if f is None:
+            res.note('reader-gave-no-file:' + status)
+            return
+        res.facet('query-source:reader')
+    else:
+        f = build_query_file(spec)
     if spec.get('disk'):
         # the receiver is a file on disk (saved, opened again)
         g = harness.to_disk(f, d, h, fmt='ioapi' if spec['kind'].startswith(
